@@ -54,6 +54,9 @@ type C06LifeCase struct {
 	// DrainAt: the stop signal of Drain (shutdown, restart for a new configuration) arrives while the
 	// k-th Deliver call of the case is in progress (0: never); a new dispatcher takes over afterwards.
 	DrainAt int `json:"drain_at,omitempty"`
+	// Restart: whenever a new dispatcher takes over (after the stop signal, after an operator requeue)
+	// the process is restarted: the SQLite file is closed and opened again.
+	Restart bool `json:"restart,omitempty"`
 }
 
 func genC06Beh(t *rapid.T) C06Beh {
@@ -102,6 +105,7 @@ func genC06LifeCase() *rapid.Generator[C06LifeCase] {
 		if pChance(t, "drain", 1, 3) {
 			c.DrainAt = pRange(t, "drain_at", 1, 6)
 		}
+		c.Restart = c.Backend == "sqlite" && pChance(t, "restart", 1, 2)
 		return c
 	})
 }
@@ -484,13 +488,29 @@ func runC06Life(c C06LifeCase, tolerateKnown bool) *pOutcome {
 
 	base := &c06Store{Store: h.st, w: w}
 	var store queue.Store = base
+	var bsw *c06BatchStore
+	restart := func() *verifkit.Failure {
+		if !c.Restart || h.sql == nil {
+			return nil
+		}
+		if err := h.reopen(clk, c.Retain); err != nil {
+			return pFail("HARNESS", "reopen", w.total, "%v", err)
+		}
+		w.inner, base.Store = h.st, h.st
+		if bsw != nil {
+			bsw.batch = h.st.(queue.LeaseBatchStore)
+		}
+		out.label("restart-between-dispatchers")
+		return nil
+	}
 	if c.BatchStore {
 		bs, ok := h.st.(queue.LeaseBatchStore)
 		if !ok {
 			out.Failure = pFail("HARNESS", "batch-store", 0, "%s store has no LeaseBatchStore", c.Backend)
 			return out
 		}
-		store = &c06BatchStore{c06Store: base, batch: bs}
+		bsw = &c06BatchStore{c06Store: base, batch: bs}
+		store = bsw
 		out.label("store:batch-capable")
 	} else {
 		out.label("store:plain")
@@ -541,6 +561,9 @@ func runC06Life(c C06LifeCase, tolerateKnown bool) *pOutcome {
 			return pFail("C06", "not-settled-at-stop", w.total, "the dispatcher stopped (Drain during Deliver call %d) without applying the delivery results of %v to the store: the messages stay leased and are sent again after the lease expires", w.c.DrainAt, ids)
 		}
 		out.label("drain-then-new-dispatcher")
+		if f := restart(); f != nil {
+			return f
+		}
 		return runRound()
 	}
 
@@ -591,6 +614,9 @@ func runC06Life(c C06LifeCase, tolerateKnown bool) *pOutcome {
 			return finish(pFail("HARNESS", "requeue-dead", w.total, "RequeueDead(%v) = %+v, %v", dead, res, err))
 		}
 		out.label("requeue-cycle")
+		if f := restart(); f != nil {
+			return finish(f)
+		}
 		for _, id := range dead {
 			w.cycleCalls[id] = 0
 			ti := w.calls[id][0].Target
